@@ -23,19 +23,25 @@ class V:
     """One variant: replace `old` by `new` (exactly one occurrence) in `file`."""
 
     def __init__(self, name: str, file: str, old: str, new: str, expect: str, rule: str = "", regex: bool = False,
-                 edits: List[Tuple[str, str, str]] = None):
+                 edits: List[Tuple[str, str, str]] = None, replace_all: bool = False):
         self.name, self.file, self.old, self.new, self.expect, self.rule, self.regex = \
             name, file, old, new, expect, rule, regex
         self.edits = edits or []  # further (file, old, new) edits applied together (cooperating sites)
+        self.replace_all = replace_all  # identifier rename: every whole-word occurrence of `old` in the file
 
 
-def _apply(root: str, file: str, old: str, new: str, regex: bool) -> bool:
+def _apply(root: str, file: str, old: str, new: str, regex: bool, replace_all: bool = False) -> bool:
     path = os.path.join(root, file)
     if not os.path.exists(path):
         return False
     with open(path) as f:
         src = f.read()
-    if regex:
+    if replace_all:
+        pat = r"(?<![A-Za-z0-9_])" + re.escape(old) + r"(?![A-Za-z0-9_])"
+        if not re.search(pat, src) or re.search(r"(?<![A-Za-z0-9_])" + re.escape(new) + r"(?![A-Za-z0-9_])", src):
+            return False
+        out = re.sub(pat, new, src)
+    elif regex:
         if len(re.findall(old, src, flags=re.S)) != 1:
             return False
         out = re.sub(old, new, src, count=1, flags=re.S)
@@ -55,7 +61,7 @@ def _one(args) -> Dict[str, Any]:
     try:
         shutil.copytree(os.path.join(src_root, PKG), os.path.join(tmp, PKG),
                         ignore=shutil.ignore_patterns("__pycache__", "*.pyc"))
-        ok = _apply(tmp, v.file, v.old, v.new, v.regex)
+        ok = _apply(tmp, v.file, v.old, v.new, v.regex, getattr(v, 'replace_all', False))
         for (f2, o2, n2) in v.edits:
             ok = ok and _apply(tmp, f2, o2, n2, False)
         if not ok:
